@@ -249,7 +249,7 @@ def r2_overheads(ck, cx):
         nz = cx.nz(cls.mod, cls)
         L = Poly.atom('len(%s)' % ENC)
         if kind == 'ascii':
-            inner = seq[0][2]
+            inner = seq[0][2] if (len(seq) == 1 and seq[0][0] == 'XF') else seq
             from ..framermodel import instance_constants
             ic = instance_constants(cx, cls)
             s2 = Seq()
